@@ -1,10 +1,11 @@
 //! `seqx`: explicit-state breadth-first exploration of operation histories on a real component,
 //! compared step by step with a reference model (DESIGN.md 4.1).
 //!
-//! A state is identified by the history that reaches it; the real component is rebuilt and the
-//! history replayed to expand it (real objects owning mapped memory cannot be cloned).  States
-//! are deduplicated on a canonical key supplied by the subject, which must include every part
-//! of the real state that can influence later results.
+//! A state is identified by the history that reaches it.  To expand a state the real component
+//! is either rebuilt from a snapshot (subjects whose complete state can be copied, e.g. a
+//! free-list table) or rebuilt fresh with the history replayed (subjects owning mapped memory or
+//! process-global state).  States are deduplicated on a canonical key supplied by the subject,
+//! which must include every part of the real state that can influence later results.
 
 use crate::common::{catch, Run};
 use serde_json::{json, Value};
@@ -15,6 +16,8 @@ pub trait Subject {
     type Op: Clone + Debug;
     /// Real component + reference model.
     type State;
+    /// Snapshot of a state (see `snapshot`); `()` if unsupported.
+    type Snap: Clone;
     fn name(&self) -> String;
     fn fresh(&self) -> Self::State;
     /// Enabled operations, simplest first.
@@ -36,6 +39,14 @@ pub trait Subject {
     }
     /// Tear down a state (unmap memory ...).  Default: drop.
     fn dispose(&self, _st: Self::State) {}
+    /// Optional fast path: copy out the complete state so that it can be rebuilt without
+    /// replaying its history.  `None` = not supported.
+    fn snapshot(&self, _st: &Self::State) -> Option<Self::Snap> {
+        None
+    }
+    fn restore(&self, _snap: &Self::Snap) -> Self::State {
+        unreachable!()
+    }
 }
 
 #[derive(Default, Debug, Clone)]
@@ -70,6 +81,13 @@ pub fn replay<S: Subject>(s: &S, hist: &[S::Op]) -> Result<S::State, (usize, Str
     Ok(st)
 }
 
+struct Node<O, P> {
+    parent: usize,
+    op: Option<O>,
+    depth: u32,
+    snap: Option<P>,
+}
+
 /// Breadth-first search.  Stops expanding at `max_depth` or `max_states`; `closed` tells whether
 /// the frontier emptied (state space closed) before a cap was hit.  Every violating transition is
 /// reported (first per signature kept by `Run`), and the successor of a violating transition is
@@ -77,67 +95,82 @@ pub fn replay<S: Subject>(s: &S, hist: &[S::Op]) -> Result<S::State, (usize, Str
 pub fn bfs<S: Subject>(s: &S, run: &mut Run, cfg_json: Value, max_depth: usize, max_states: usize) -> Stats {
     let mut stats = Stats::default();
     let mut seen: HashSet<Vec<u8>> = HashSet::new();
-    let mut frontier: VecDeque<Vec<S::Op>> = VecDeque::new();
+    let mut nodes: Vec<Node<S::Op, S::Snap>> = vec![];
+    let mut frontier: VecDeque<usize> = VecDeque::new();
     let init = s.fresh();
     if let Err(m) = s.check(&init) {
         run.violation(
-            format!("{}:init", s.name()),
-            format!("initial state mismatch: {}", m),
+            format!("{}:init", s.name().split('[').next().unwrap_or("")),
+            format!("{}: initial state mismatch: {}", s.name(), m),
             json!({"subject": s.name(), "cfg": cfg_json, "history": []}),
         );
         stats.violations += 1;
     }
     seen.insert(s.key(&init));
+    nodes.push(Node { parent: usize::MAX, op: None, depth: 0, snap: s.snapshot(&init) });
     s.dispose(init);
-    frontier.push_back(vec![]);
+    frontier.push_back(0);
     stats.states = 1;
     let mut capped = false;
-    while let Some(hist) = frontier.pop_front() {
-        if hist.len() >= max_depth {
+
+    let history = |nodes: &Vec<Node<S::Op, S::Snap>>, mut i: usize| -> Vec<S::Op> {
+        let mut h = vec![];
+        while nodes[i].parent != usize::MAX {
+            h.push(nodes[i].op.clone().unwrap());
+            i = nodes[i].parent;
+        }
+        h.reverse();
+        h
+    };
+    let rebuild = |nodes: &Vec<Node<S::Op, S::Snap>>, i: usize| -> S::State {
+        if let Some(sn) = &nodes[i].snap {
+            s.restore(sn)
+        } else {
+            let h = history(nodes, i);
+            match replay(s, &h) {
+                Ok(st) => st,
+                Err((k, m)) => crate::common::machinery_failure(&format!("seqx replay divergence in {} at step {} of {:?}: {}", s.name(), k, h, m)),
+            }
+        }
+    };
+
+    while let Some(ni) = frontier.pop_front() {
+        let depth = nodes[ni].depth as usize;
+        if depth >= max_depth {
             capped = true;
             continue;
         }
-        let st = match replay(s, &hist) {
-            Ok(st) => st,
-            Err((i, m)) => crate::common::machinery_failure(&format!(
-                "seqx replay divergence in {} at step {} of {:?}: {}",
-                s.name(),
-                i,
-                hist,
-                m
-            )),
-        };
+        let st = rebuild(&nodes, ni);
         let ops = s.enabled(&st);
         s.dispose(st);
         for op in ops {
-            let mut st = match replay(s, &hist) {
-                Ok(st) => st,
-                Err((i, m)) => crate::common::machinery_failure(&format!("seqx replay divergence (2) in {} at {}: {}", s.name(), i, m)),
-            };
+            let mut st = rebuild(&nodes, ni);
             stats.transitions += 1;
             let r = catch(|| s.apply(&mut st, &op).and_then(|nt| s.check(&st).map(|_| nt)));
-            let mut h2 = hist.clone();
-            h2.push(op.clone());
             match r {
                 Ok(Ok(nt)) => {
                     if nt {
                         stats.nontrivial += 1;
                     }
                     let k = s.key(&st);
-                    s.dispose(st);
                     if seen.insert(k) {
                         stats.states += 1;
-                        stats.max_depth = stats.max_depth.max(h2.len() as u64);
+                        stats.max_depth = stats.max_depth.max(depth as u64 + 1);
                         if stats.states as usize >= max_states {
                             capped = true;
                         } else {
-                            frontier.push_back(h2);
+                            nodes.push(Node { parent: ni, op: Some(op.clone()), depth: depth as u32 + 1, snap: s.snapshot(&st) });
+                            frontier.push_back(nodes.len() - 1);
                         }
                     }
+                    s.dispose(st);
                 }
                 other => {
                     let msg = match other {
-                        Ok(Err(m)) => m,
+                        Ok(Err(m)) => {
+                            s.dispose(st);
+                            m
+                        }
                         Err(p) => {
                             std::mem::forget(st);
                             format!("panic: {} @ {}", p, crate::common::last_panic_location())
@@ -145,6 +178,8 @@ pub fn bfs<S: Subject>(s: &S, run: &mut Run, cfg_json: Value, max_depth: usize, 
                         _ => unreachable!(),
                     };
                     stats.violations += 1;
+                    let mut h2 = history(&nodes, ni);
+                    h2.push(op.clone());
                     run.violation(
                         format!("{}:{}", s.name().split('[').next().unwrap_or(""), s.signature(&op, &msg)),
                         format!("{} after history {:?}: {}", s.name(), h2, msg),
@@ -153,6 +188,8 @@ pub fn bfs<S: Subject>(s: &S, run: &mut Run, cfg_json: Value, max_depth: usize, 
                 }
             }
         }
+        // the snapshot of an expanded node is no longer needed
+        nodes[ni].snap = None;
         if capped && stats.states as usize >= max_states {
             break;
         }
@@ -171,4 +208,51 @@ pub fn add_stats(run: &mut Run, st: &Stats) {
     run.set("max_depth", d);
     let ex = run.coverage.get("exhaustive").and_then(|v| v.as_bool()).unwrap_or(true);
     run.set("exhaustive", ex && st.closed);
+}
+
+/// Run one BFS per configuration, in parallel on up to `run.jobs` threads; each configuration
+/// gets its own sub-`Run`, merged in order afterwards.  `make` builds the subject inside the
+/// worker thread.
+pub fn bfs_many<C: Send + Sync + Clone, S: Subject>(
+    run: &mut Run,
+    cfgs: &[C],
+    make: impl Fn(&C) -> S + Sync,
+    cfg_json: impl Fn(&C) -> Value + Sync,
+    max_depth: usize,
+    max_states: usize,
+) -> Vec<Stats> {
+    let next = std::sync::atomic::AtomicUsize::new(0);
+    let results: std::sync::Mutex<Vec<Option<(Stats, Value)>>> = std::sync::Mutex::new(vec![None; cfgs.len()]);
+    let tier = run.tier;
+    let id = run.id.clone();
+    std::thread::scope(|sc| {
+        for _ in 0..run.jobs.min(cfgs.len()).max(1) {
+            sc.spawn(|| {
+                crate::common::quiet_panics();
+                loop {
+                    let i = next.fetch_add(1, std::sync::atomic::Ordering::SeqCst);
+                    if i >= cfgs.len() {
+                        break;
+                    }
+                    let mut sub = Run::new(&id, tier);
+                    let subj = make(&cfgs[i]);
+                    let st = bfs(&subj, &mut sub, cfg_json(&cfgs[i]), max_depth, max_states);
+                    results.lock().unwrap()[i] = Some((st, sub.to_child_json()));
+                }
+            });
+        }
+    });
+    let mut out = vec![];
+    for r in results.into_inner().unwrap() {
+        let (st, j) = r.unwrap();
+        // only violations (and their counter) come from the sub-run; stats are added by add_stats
+        if let Some(a) = j.get("violations").and_then(|c| c.as_array()) {
+            for x in a {
+                run.violation(x["signature"].as_str().unwrap_or("?").to_string(), x["message"].as_str().unwrap_or("").to_string(), x["case"].clone());
+            }
+        }
+        add_stats(run, &st);
+        out.push(st);
+    }
+    out
 }
